@@ -1661,7 +1661,7 @@ impl Fam {
 }
 
 const STRUCT_BYTES: [u8; 16] = [0x00, 0x0a, 0x20, b'%', b'(', b')', b'<', b'>', b'[', b']', b'/', b'\\', b'0', b'9', b'-', 0xff];
-const QUICK_BYTES: [u8; 4] = [b' ', b'(', b'<', b'9'];
+const QUICK_BYTES: [u8; 3] = [b' ', b'(', b'9'];
 
 #[derive(Clone, Copy, Debug, PartialEq, Eq)]
 enum ByteOp {
@@ -1755,7 +1755,6 @@ impl Space {
             byte_ops.push(ByteOp::DupFix);
             byte_ops.extend(STRUCT_BYTES.iter().map(|b| ByteOp::Replace(*b)));
         } else {
-            byte_ops.push(ByteOp::DeleteFix);
             byte_ops.extend(QUICK_BYTES.iter().map(|b| ByteOp::Replace(*b)));
         }
         let mut ns_items = Vec::new();
@@ -1832,6 +1831,11 @@ impl Space {
                 }
                 for closed in [true, false] {
                     if (chain || k >= 12) && !closed {
+                        continue;
+                    }
+                    // unclosed nests deeper than 5000 add only quadratic recovery time
+                    // (seconds per case) on top of what the closed ones already show
+                    if !closed && d > 5000 {
                         continue;
                     }
                     nest.push((k, d, closed));
@@ -2493,12 +2497,15 @@ impl Space {
 // worker process
 // =====================================================================================
 
+/// User-mode CPU time of this thread. Kernel time is left out on purpose: under memory
+/// pressure the page faults that follow a fork are charged as system time and would make
+/// the per-case clock depend on what else the machine is doing.
 fn thread_cpu_us() -> u64 {
-    let mut ts = libc::timespec { tv_sec: 0, tv_nsec: 0 };
+    let mut ru: libc::rusage = unsafe { std::mem::zeroed() };
     unsafe {
-        libc::clock_gettime(libc::CLOCK_THREAD_CPUTIME_ID, &mut ts);
+        libc::getrusage(libc::RUSAGE_THREAD, &mut ru);
     }
-    ts.tv_sec as u64 * 1_000_000 + ts.tv_nsec as u64 / 1000
+    ru.ru_utime.tv_sec as u64 * 1_000_000 + ru.ru_utime.tv_usec as u64
 }
 
 fn clean(s: &str) -> String {
@@ -2662,14 +2669,25 @@ pub fn worker_main(args: &[String]) -> i32 {
         let pid = unsafe { libc::fork() };
         if pid == 0 {
             let me = unsafe { libc::getpid() };
+            state_case(start);
             emit(format!("C {me}\n").as_bytes());
+            // Records are buffered for up to 20 ms; the index of the case in flight is in the
+            // shared cell, so a record lost with this buffer only means that case is run again.
+            let mut buf: Vec<u8> = Vec::with_capacity(1 << 15);
+            let mut last_flush = Instant::now();
             for j in 0..count {
                 let idx = start + j * stride;
-                let mut rec = run_case_here(&space, f, idx);
-                rec.push('\n');
-                emit(rec.as_bytes());
+                let rec = run_case_here(&space, f, idx);
+                buf.extend_from_slice(rec.as_bytes());
+                buf.push(b'\n');
+                if buf.len() > 24_000 || last_flush.elapsed() > Duration::from_millis(20) {
+                    emit(&buf);
+                    buf.clear();
+                    last_flush = Instant::now();
+                }
             }
-            emit(b"E\n");
+            buf.extend_from_slice(b"E\n");
+            emit(&buf);
             unsafe { libc::_exit(0) };
         } else if pid < 0 {
             emit(b"X fork-failed\n");
@@ -2791,16 +2809,18 @@ impl Worker {
         let _ = self.child.kill();
         self.child.wait().expect("wait")
     }
-    fn cpu_seconds(&self, pid: Option<i32>) -> f64 {
+    /// (user, user+system) CPU seconds of the process
+    fn cpu_seconds(&self, pid: Option<i32>) -> (f64, f64) {
         let pid = pid.unwrap_or(self.child.id() as i32);
-        let Ok(s) = std::fs::read_to_string(format!("/proc/{pid}/stat")) else { return 0.0 };
-        let Some(p) = s.rfind(')') else { return 0.0 };
+        let Ok(s) = std::fs::read_to_string(format!("/proc/{pid}/stat")) else { return (0.0, 0.0) };
+        let Some(p) = s.rfind(')') else { return (0.0, 0.0) };
         let f: Vec<&str> = s[p + 1..].split_whitespace().collect();
         // after ")" the fields start at index 0 = state (field 3); utime = field 14, stime = 15
+        // the deadline counts user time only, for the same reason as the worker's per-case clock
         let ut: f64 = f.get(11).and_then(|x| x.parse().ok()).unwrap_or(0.0);
         let stt: f64 = f.get(12).and_then(|x| x.parse().ok()).unwrap_or(0.0);
-        let hz = unsafe { libc::sysconf(libc::_SC_CLK_TCK) } as f64;
-        (ut + stt) / hz.max(1.0)
+        let hz = (unsafe { libc::sysconf(libc::_SC_CLK_TCK) } as f64).max(1.0);
+        (ut / hz, (ut + stt) / hz)
     }
 }
 
@@ -2855,7 +2875,8 @@ struct Flight {
 enum Got {
     Record(Rec),
     BatchEnd,
-    Failed(Single),
+    /// what happened, and the index of the case that was in flight (from the shared cell)
+    Failed(Single, u64),
 }
 
 /// Wait for the next record (or the end-of-batch marker) of worker `w`. A worker that dies,
@@ -2893,9 +2914,9 @@ fn next_event(wopt: &mut Option<Worker>, fl: &mut Flight) -> Got {
                         _ => m.to_string(),
                     };
                     let (class, tail) = stderr_class(&w.errpath);
-                    let (phase, _) = read_state_file(&w.statepath);
+                    let (phase, inflight) = read_state_file(&w.statepath);
                     let f = std::mem::take(fl);
-                    return Got::Failed(Single::Crash { how, phase, oom: f.oom, fault: f.fault, stderr_class: class, stderr_tail: tail });
+                    return Got::Failed(Single::Crash { how, phase, oom: f.oom, fault: f.fault, stderr_class: class, stderr_tail: tail }, inflight);
                 }
             }
             Err(mpsc::RecvTimeoutError::Timeout) => {
@@ -2907,12 +2928,12 @@ fn next_event(wopt: &mut Option<Worker>, fl: &mut Flight) -> Got {
                     // the batch child has not announced itself yet (slow fork): nothing to measure
                     continue;
                 }
-                let cpu_now = w.cpu_seconds(fl.child_pid);
+                let (cpu_now, all_now) = w.cpu_seconds(fl.child_pid);
                 let base = *fl.cpu_base.get_or_insert(cpu_now);
                 let cpu = cpu_now - base;
-                fl.marks.push((wall, cpu));
-                // blocked = practically no CPU used during the last 10 s of wall time
-                let blocked = wall >= DEADLINE_WALL_S && fl.marks.iter().find(|m| m.0 >= wall - 10.0).map(|m| cpu - m.1 < 0.2).unwrap_or(false);
+                fl.marks.push((wall, all_now));
+                // blocked = no CPU at all (user or system) used during the last 30 s of wall time
+                let blocked = wall >= 60.0 && fl.marks.iter().find(|m| m.0 >= wall - 30.0).map(|m| all_now - m.1 < 0.05 && wall - m.0 >= 25.0).unwrap_or(false);
                 if cpu >= DEADLINE_CPU_S || blocked || wall >= 300.0 {
                     // three stack samples 100 ms apart: the deepest frame common to all of them
                     // is the function whose loop does not end
@@ -2949,7 +2970,7 @@ fn next_event(wopt: &mut Option<Worker>, fl: &mut Flight) -> Got {
                         }
                     }
                     let samples: Vec<String> = stacks.iter().map(|s| s.join(">")).collect();
-                    let (phase, _) = read_state_file(&w.statepath);
+                    let (phase, inflight) = read_state_file(&w.statepath);
                     match fl.child_pid {
                         Some(cp) => {
                             // kill the batch child only and swallow the worker's "X" notice
@@ -2982,7 +3003,7 @@ fn next_event(wopt: &mut Option<Worker>, fl: &mut Flight) -> Got {
                         }
                     }
                     *fl = Flight::default();
-                    return Got::Failed(Single::Hang { phase, cpu_s: cpu, wall_s: wall, frame, samples });
+                    return Got::Failed(Single::Hang { phase, cpu_s: cpu, wall_s: wall, frame, samples }, inflight);
                 }
             }
             Err(mpsc::RecvTimeoutError::Disconnected) => {
@@ -2994,9 +3015,9 @@ fn next_event(wopt: &mut Option<Worker>, fl: &mut Flight) -> Got {
                     None => format!("exit{}", st.code().unwrap_or(-1)),
                 };
                 let (class, tail) = stderr_class(&w.errpath);
-                let (phase, _) = read_state_file(&w.statepath);
+                let (phase, inflight) = read_state_file(&w.statepath);
                 let f = std::mem::take(fl);
-                return Got::Failed(Single::Crash { how, phase, oom: f.oom, fault: f.fault, stderr_class: class, stderr_tail: tail });
+                return Got::Failed(Single::Crash { how, phase, oom: f.oom, fault: f.fault, stderr_class: class, stderr_tail: tail }, inflight);
             }
         }
     }
@@ -3022,7 +3043,7 @@ fn run_single(thorough: bool, scratch: &std::path::Path, tag: &str, f: Fam, idx:
             Single::Done(r)
         }
         Got::BatchEnd => Single::Machinery("batch ended without a record".into()),
-        Got::Failed(s) => s,
+        Got::Failed(s, _) => s,
     }
 }
 
@@ -3213,7 +3234,20 @@ fn manager(slot: usize, sw: &Sweep) -> Vec<FamAcc> {
         let acc = &mut accs[fam.id()];
         let end = first + count * stride;
         let mut next = first;
+        // a failed case waiting to be recorded once the cases before it (whose records were
+        // lost with the dead child's buffer) have been run again
+        let mut pending: Option<(u64, Single)> = None;
         while next < end {
+            if pending.as_ref().map(|p| p.0 == next).unwrap_or(false) {
+                let (f, s) = pending.take().unwrap();
+                acc.respawns += 1;
+                if let Some(e) = acc.record_single(f, s) {
+                    sw.machinery.lock().unwrap().push(format!("{} #{f}: {e}", fam.name()));
+                }
+                sw.done.fetch_add(1, Ordering::Relaxed);
+                next += stride;
+                continue;
+            }
             if worker.is_none() {
                 match Worker::spawn(sw.thorough, &sw.scratch, &format!("w{slot}")) {
                     Ok(w) => worker = Some(w),
@@ -3227,7 +3261,8 @@ fn manager(slot: usize, sw: &Sweep) -> Vec<FamAcc> {
                     }
                 }
             }
-            let cmd = format!("B {} {} {} {}\n", fam.id(), next, (end - next) / stride, stride);
+            let upto = pending.as_ref().map(|p| p.0).unwrap_or(end);
+            let cmd = format!("B {} {} {} {}\n", fam.id(), next, (upto - next) / stride, stride);
             {
                 let w = worker.as_mut().unwrap();
                 if w.stdin.write_all(cmd.as_bytes()).and_then(|_| w.stdin.flush()).is_err() {
@@ -3235,7 +3270,6 @@ fn manager(slot: usize, sw: &Sweep) -> Vec<FamAcc> {
                     if let Some(w) = worker.take() {
                         w.kill();
                     }
-                    acc.respawns += 1;
                     spawn_failures += 1;
                     if spawn_failures > 50 {
                         sw.machinery.lock().unwrap().push(format!("manager {slot}: workers keep dying before accepting work"));
@@ -3256,17 +3290,14 @@ fn manager(slot: usize, sw: &Sweep) -> Vec<FamAcc> {
                         sw.done.fetch_add(1, Ordering::Relaxed);
                     }
                     Got::BatchEnd => {
-                        next = end;
+                        next = upto;
                         break;
                     }
-                    Got::Failed(s) => {
-                        // records are written case by case, so the case in flight is `next`
-                        acc.respawns += 1;
-                        if let Some(e) = acc.record_single(next, s) {
-                            sw.machinery.lock().unwrap().push(format!("{} #{next}: {e}", fam.name()));
-                        }
-                        sw.done.fetch_add(1, Ordering::Relaxed);
-                        next += stride;
+                    Got::Failed(s, inflight) => {
+                        // the shared cell names the case in flight; anything between the last
+                        // record received and that case finished but went down with the buffer
+                        let f = if inflight >= next && inflight < upto && (inflight - first) % stride == 0 { inflight } else { next };
+                        pending = Some((f, s));
                         break;
                     }
                 }
@@ -3336,7 +3367,7 @@ pub fn run(rep: &mut vx::Report) {
          cases are numbered family by family and every index is executed in an isolated worker process. distinct_inputs = distinct input byte strings; distinct_outcomes = distinct outcome signatures \
          (open result class, page count, per-phase ok/err counts, or panic key / crash / hang); non-trivial = the file opened and at least one indirect object was loaded as a non-null value.",
     );
-    rep.assume("the oracle is 'every step returns Ok or Err': no panic (overflow checks on), no abnormal process end, <= 5 s CPU per case, <= 1 GiB live heap per worker (counting global allocator refuses the allocation that would cross it)");
+    rep.assume("the oracle is 'every step returns Ok or Err': no panic (overflow checks on), no abnormal process end, <= 5 s of user-mode CPU per case (300 s wall at most), <= 1 GiB live heap per worker (counting global allocator refuses the allocation that would cross it)");
     rep.assume("refpdf::builder/filters produce the seed files (strict-validated below); one seed is the repository fixture interop_qpdf_rc4-40_empty.pdf, one is written by the library's own writer");
     rep.assume("ParseOptions::lenient() is compared field by field (Debug rendering) with ParseOptions::tolerant() at run time; when identical, the lenient case is not executed a second time and is counted separately");
     rep.assume("pages beyond the first 12 and object numbers beyond max-object-of-seed+3 (gen 0 only) are not walked by the driver");
@@ -3440,7 +3471,7 @@ pub fn run(rep: &mut vx::Report) {
                     if last.elapsed() >= Duration::from_secs(30) {
                         last = Instant::now();
                         let c = sw.cursor.lock().unwrap();
-                        eprintln!("[C01] progress: {} cases done, at family {} index {} of {}, {:.0} s", sw.done.load(Ordering::Relaxed), FAMS.get(c.0).map(|f| f.name()).unwrap_or("-"), c.1, sw.totals.get(c.0).copied().unwrap_or(0), t_sweep.elapsed().as_secs_f64());
+                        eprintln!("[C01] progress: {} cases done, at family {} chunk {} of {}, {:.0} s", sw.done.load(Ordering::Relaxed), FAMS.get(c.0).map(|f| f.name()).unwrap_or("-"), c.1, (sw.totals.get(c.0).copied().unwrap_or(0) + CHUNK - 1) / CHUNK, t_sweep.elapsed().as_secs_f64());
                     }
                 }
             });
@@ -3496,7 +3527,7 @@ pub fn run(rep: &mut vx::Report) {
         st.extra.insert("panicking_cases".into(), json!(acc.panics));
         st.extra.insert("crashed_cases".into(), json!(acc.crashes));
         st.extra.insert("hung_cases".into(), json!(acc.hangs));
-        st.extra.insert("worker_respawns".into(), json!(acc.respawns));
+        st.extra.insert("abnormal_case_ends_handled".into(), json!(acc.respawns));
         st.extra.insert("max_peak_heap_bytes".into(), json!(acc.max_peak_kib * 1024));
         st.extra.insert("max_peak_heap_case".into(), json!(acc.max_peak_idx));
         st.extra.insert("max_case_cpu_ms".into(), json!(acc.max_cpu_us as f64 / 1000.0));
